@@ -3,6 +3,7 @@ package main
 import (
 	"fmt"
 
+	"github.com/jmsadair/raft"
 	"verif/mc/explore"
 	"verif/mc/monitor"
 	"verif/mc/sim"
@@ -16,6 +17,7 @@ func safetyMonitors() []monitor.Monitor {
 }
 
 var suites = map[string]*explore.Suite{}
+var numHV int
 
 func reg(s *explore.Suite) *explore.Suite {
 	if s.Monitors == nil {
@@ -124,6 +126,39 @@ func init() {
 		reg(&explore.Suite{Name: fmt.Sprintf("cli3-d%d", d), Cfg: sim.Config{Voters: 3}, Seed: seedLeader3,
 			Budget: sim.Budget{Timeouts: 1, Elapses: 1, Beats: 1, Writes: 3, Reorders: -1, Splits: 2, Cuts: 1, ClientTimeouts: 1, Crashes: 1, Restarts: 1, Deviations: d}})
 	}
+	// HANDLER suites for C08: one real node booted from preloaded storage, two
+	// puppet peers; unbounded injections, bounded timeouts/crashes, capped terms.
+	hv := 0
+	for _, term := range []uint64{1, 2} {
+		for _, vote := range []string{"", "n1", "n2"} {
+			for _, last := range [][2]uint64{{1, 1}, {2, 1}, {2, 2}} {
+				if last[1] > term {
+					continue
+				}
+				term, vote, last := term, vote, last
+				for _, tier := range []string{"q", "t"} {
+					b := sim.Budget{Timeouts: 2, Elapses: 2, Crashes: 1, Arms: 1, Restarts: 1, Reorders: -1, Deviations: -1, Steps: 4}
+					capAdd := uint64(2)
+					if tier == "t" {
+						b = sim.Budget{Timeouts: 2, Elapses: 3, Crashes: 1, Arms: 1, Restarts: 1, Reorders: -1, Deviations: -1, Steps: 5}
+						capAdd = 3
+					}
+					reg(&explore.Suite{Name: fmt.Sprintf("hv%s-%d", tier, hv), Budget: b,
+						Boot: func(b sim.Budget) *sim.Cluster {
+							sim.Puppet.TermCap = term + capAdd
+							p := sim.Preload{Peers: 3, Term: term, Vote: vote, HasState: true, Hook: true}
+							p.Entries = []raft.LogEntry{{Index: 1, Term: 1, EntryType: raft.ConfigurationEntry, Data: sim.ConfData(3, 1)}}
+							if last[0] == 2 {
+								p.Entries = append(p.Entries, raft.LogEntry{Index: 2, Term: last[1], EntryType: raft.NoOpEntry})
+							}
+							return sim.NewSingle(p, b)
+						}})
+				}
+				hv++
+			}
+		}
+	}
+	numHV = hv
 	// small unbounded spaces (no deviation bound): every order within the budgets
 	reg(&explore.Suite{Name: "all2", Cfg: sim.Config{Voters: 2},
 		Budget: sim.Budget{Timeouts: 3, Elapses: 3, Beats: 1, Writes: 1, Reorders: -1, Splits: 1, Deviations: -1}})
